@@ -6,7 +6,7 @@ import os, shutil, subprocess, sys
 MUT = {
  "m01_srec_chk": [('fprintf(TargFile, "%02X\\n", Lo(ChkSum ^ 0xff));\n                        ChkIO(TargName);\n                        break;\n                    case eHexFormatMOS:',
                    'fprintf(TargFile, "%02X\\n", Lo(ChkSum ^ 0xfe));\n                        ChkIO(TargName);\n                        break;\n                    case eHexFormatMOS:')],
- "m02_s5_count": [('if ((ErgLen % LineLen) != 0) {', 'if (1) {')],
+ "m02_s5_count": [('if ((ErgLen % GrpLineLen) != 0) {', 'if (1) {')],
  "m03_intel_chk": [('Lo(1 + (ChkSum ^ 0xff))', 'Lo(ChkSum ^ 0xff)')],
  "m04_bank_drop": [('                        FirstBank = True;\n', '')],
  "m05_no_reloc": [('                ErgStart += Relocate;\n', '')],
@@ -21,23 +21,38 @@ MUT = {
  "m13_intel_eof_entry": [('EndRecAddr = EntryAdr & 0xffff;', 'EndRecAddr = 0;')],
  "m14_c_len": [('PrCData(TargFile, \'l\', "len", CTargName, CBlockName, ErgLen);', 'PrCData(TargFile, \'l\', "len", CTargName, CBlockName, ErgLen + 1);')],
  "m15_s9_entry": [('fprintf(TargFile, "%04X", LoWord(EntryAdr & 0xffff));', 'fprintf(TargFile, "%04X", LoWord(0));')],
- "m16_intel16_seg": [('IntOffset -= IntOffset & 0x0f;', 'IntOffset -= IntOffset & 0xff;')],
+ # (Intel-16 segment rounded to 256 bytes was tried too: output stays valid and decodes right - an equivalent mutant)
  "m17_offset": [('                InpStart += Offset;\n                ErgStart = max', '                ErgStart = max')],
 }
+REVERT = ["mos-line-checksum", "mos-terminator-count", "tek-checksums", "line-splitting", "moto-type-after-relocation",
+          "intel16-segment-rebase", "range-for-forced-segment"]       # r_<name>: the applied repair taken out again
+
+
+def mutate(name, repo):
+    if name.startswith("r_"):
+        subprocess.run(["git", "init", "-q", "."], cwd=repo, check=True)
+        subprocess.run(["git", "apply", "-R", "/verif/proposed_fixes/C06-%s.diff" % name[2:]], cwd=repo, check=True)
+        return
+    n = 0
+    for f in ("p2hex.c", "headids.c"):
+        p = os.path.join(repo, f)
+        s = open(p).read()
+        for a, b in MUT[name]:
+            if a in s:
+                assert s.count(a) == 1, (name, a[:40], s.count(a))
+                s = s.replace(a, b)
+                n += 1
+        open(p, "w").write(s)
+    assert n == len(MUT[name]), (name, n)
+
+
 def run(name):
     os.makedirs("/tmp/c06-selftest", exist_ok=True)
     repo="/tmp/c06-selftest/%s-repo"%name; ver="/tmp/c06-selftest/%s-verif"%name; cache="/tmp/c06-selftest/%s-cache"%name
     for d in (repo,ver,cache): shutil.rmtree(d, ignore_errors=True)
     shutil.copytree("/repo", repo, ignore=shutil.ignore_patterns(".git"))
     subprocess.run(["rsync","-a","--exclude",".git","--exclude","replays","/verif/",ver+"/"],check=True)
-    n=0
-    for f in ("p2hex.c","headids.c"):
-        p=os.path.join(repo,f); s=open(p).read()
-        for a,b in MUT[name]:
-            if a in s:
-                assert s.count(a)==1,(name,a[:40],s.count(a)); s=s.replace(a,b); n+=1
-        open(p,"w").write(s)
-    assert n==len(MUT[name]), (name,n)
+    mutate(name, repo)
     env=dict(os.environ, VERIF_REPO=repo, VERIF_CACHE=cache, VERIF_JOBS=os.environ.get("VERIF_JOBS", "6"), VERIF_C06_SKIP_PINNED_MC="1")
     r=subprocess.run(["./check","C06","--tier","quick"],cwd=ver,env=env,stdout=subprocess.PIPE,stderr=subprocess.STDOUT)
     out=r.stdout.decode()
@@ -47,6 +62,12 @@ def run(name):
     for d in (repo,cache,ver): shutil.rmtree(d, ignore_errors=True)
 if __name__=="__main__":
     import concurrent.futures as cf
-    names=sys.argv[1:] or list(MUT)
+    names=[a for a in sys.argv[1:] if a != "--dry"] or (list(MUT) + ["r_" + r for r in REVERT])
+    if "--dry" in sys.argv:            # only check that every mutation still applies to the current tree
+        for n in names:
+            d="/tmp/c06-selftest-dry"; shutil.rmtree(d, ignore_errors=True); os.makedirs(d)
+            for f in ("p2hex.c","headids.c"): shutil.copy(os.path.join("/repo",f), d)
+            mutate(n, d); print("applies:", n)
+        shutil.rmtree(d, ignore_errors=True); sys.exit(0)
     with cf.ThreadPoolExecutor(2) as ex: list(ex.map(run,names))
     shutil.rmtree("/tmp/c06-selftest", ignore_errors=True)
